@@ -15,8 +15,10 @@ for p in props:
     n = NOTES.get(i, {})
     out.append(f"### {i} — {p['title']}\n")
     out.append(f"**Models.** {n.get('models', '')}\n")
-    ths = ", ".join(f"`{t}`" for t, _ in m.THEOREMS)
-    out.append(f"**Theorems audited ({len(m.THEOREMS)}).** {ths}\n")
+    ths = ", ".join(f"`{t}`" for t, _ in m.THEOREMS) + f", `Anchors.{i}.source_as_modelled`"
+    out.append(f"**Theorems audited ({len(m.THEOREMS) + 1}).** {ths}\n")
+    anch = json.load(open(V + "/extract/anchors.json")).get(i, [])
+    out.append("**Anchor declarations fingerprinted.** " + ", ".join(f"`{os.path.basename(a['file'])}:{a['decl']}`" for a in anch) + "\n")
     if n.get("theorems"): out.append(f"**What they say.** {n['theorems']}\n")
     out.append(f"**Tie (correspondence / extraction).** {m.RULE}\n")
     out.append("**Assumptions.** " + "; ".join(m.ASSUMPTIONS) + "\n")
